@@ -49,8 +49,8 @@ def run(prop, tier, seed, replay=None):
         changed = False
     if changed:
         V.note("prime tables re-extracted from %s (they differ from the committed extraction)" % common.REPO)
-    L = flow.lean_stage(V, ["GivaroModel.Props.C12", "GivaroModel.Props.C12MR", "GivaroModel.Props.C12Erat"], "GivaroModel/Props/C12.lean",
-                        extra_theorem_files=["GivaroModel/Props/C12MR.lean", "GivaroModel/Props/C12Erat.lean"])
+    L = flow.lean_stage(V, ["GivaroModel.Props.C12", "GivaroModel.Props.C12MR", "GivaroModel.Props.C12Erat", "GivaroModel.Props.C12Rho"], "GivaroModel/Props/C12.lean",
+                        extra_theorem_files=["GivaroModel/Props/C12MR.lean", "GivaroModel/Props/C12Erat.lean", "GivaroModel/Props/C12Rho.lean"])
     bins = flow.build_harnesses("h_primes", configs=("S",))
     lines = None
     if replay:
